@@ -24,11 +24,16 @@ def parse_json_ast(json_bytes: bytes):
     return DznJsonAst(json_bytes).process()
 
 
-def build(cfgspec, fc):
-    """Run the real builder; returns [(filename, contents, hash)]."""
+def build(cfgspec, fc, rebuild=False):
+    """Run the real builder; returns [(filename, contents, hash)].
+    rebuild: build a second time from the SAME Configuration object (as a user generating twice would) and return
+    that result - what World A compiles is then the product of a two-build history, so a build that damages its own
+    configuration or model shows up in the compiled program too."""
     ensure_repo_dznpy()
     from dznpy.adv_shell import Builder
     from . import cfggen
     cfg = cfggen.build_configuration(cfgspec, fc)
     result = Builder().build(cfg)
+    if rebuild:
+        result = Builder().build(cfg)
     return [(f.filename, f.contents, f.hash) for f in result.files]
